@@ -280,7 +280,23 @@ func diffClass(d string) string {
 
 // roundTrip evaluates C05 on one file: print, parse+link the text, compare, print again.
 // siblings holds the texts the import resolver may need (the file's own text is replaced).
+// rtOut: what the round trip produced, for the file-layer correspondence (model/ProtoPrintFileCorr.v)
+type rtOut struct {
+	Txt1, Txt2 string
+	Fd2        protoreflect.FileDescriptor
+}
+
 func roundTrip(ctx context.Context, fd protoreflect.FileDescriptor, siblings map[string]string, ignoreGenComment bool) (txt1 string, fails []rtFailure) {
+	out, fails := roundTripOut(ctx, fd, siblings)
+	return out.Txt1, fails
+}
+
+func roundTripOut(ctx context.Context, fd protoreflect.FileDescriptor, siblings map[string]string) (out rtOut, fails []rtFailure) {
+	txt1, fd2, txt2, fails := roundTripAll(ctx, fd, siblings)
+	return rtOut{Txt1: txt1, Txt2: txt2, Fd2: fd2}, fails
+}
+
+func roundTripAll(ctx context.Context, fd protoreflect.FileDescriptor, siblings map[string]string) (txt1 string, fd2 protoreflect.FileDescriptor, txt2 string, fails []rtFailure) {
 	defer func() {
 		if p := recover(); p != nil {
 			fails = append(fails, rtFailure{Sig: "printer or parser panic: " + failureClass(fmt.Sprint(p)), Clause: "no crash", Got: trim(fmt.Sprint(p), 300)})
@@ -288,7 +304,7 @@ func roundTrip(ctx context.Context, fd protoreflect.FileDescriptor, siblings map
 	}()
 	txt1, err := tool.PrintFile(ctx, fd, "verif")
 	if err != nil {
-		return "", []rtFailure{{Sig: "PrintFile error: " + failureClass(err.Error()), Clause: "the toolchain prints the file", Got: err.Error()}}
+		return "", nil, "", []rtFailure{{Sig: "PrintFile error: " + failureClass(err.Error()), Clause: "the toolchain prints the file", Got: err.Error()}}
 	}
 	files := map[string]string{}
 	for k, v := range siblings {
@@ -297,21 +313,20 @@ func roundTrip(ctx context.Context, fd protoreflect.FileDescriptor, siblings map
 	files[fd.Path()] = txt1
 	parsed, err := tool.ParseProto(ctx, files, []string{fd.Path()})
 	if err != nil {
-		return txt1, []rtFailure{{Sig: "printed text does not parse/link: " + failureClass(err.Error()), Clause: "parsing and linking the printed text yields a descriptor", Got: trim(err.Error(), 300)}}
+		return txt1, nil, "", []rtFailure{{Sig: "printed text does not parse/link: " + failureClass(err.Error()), Clause: "parsing and linking the printed text yields a descriptor", Got: trim(err.Error(), 300)}}
 	}
-	var fd2 protoreflect.FileDescriptor
 	for _, f := range parsed {
 		if f.Path() == fd.Path() {
 			fd2 = f
 		}
 	}
 	if fd2 == nil {
-		return txt1, []rtFailure{{Sig: "reparsed file missing", Clause: "parse", Got: fd.Path()}}
+		return txt1, nil, "", []rtFailure{{Sig: "reparsed file missing", Clause: "parse", Got: fd.Path()}}
 	}
 	d1, err1 := normalise(fd)
 	d2, err2 := normalise(fd2)
 	if err1 != nil || err2 != nil {
-		return txt1, []rtFailure{{Sig: "descriptor normalisation failed", Clause: "compare", Got: fmt.Sprint(err1, err2)}}
+		return txt1, fd2, "", []rtFailure{{Sig: "descriptor normalisation failed", Clause: "compare", Got: fmt.Sprint(err1, err2)}}
 	}
 	// options on the key/value fields of a synthetic map entry cannot be written in map<K, V> syntax
 	if lost := mapEntryOptions(d1.MessageType, ""); len(lost) > 0 {
@@ -332,10 +347,10 @@ func roundTrip(ctx context.Context, fd protoreflect.FileDescriptor, siblings map
 			break
 		}
 	}
-	txt2, err := tool.PrintFile(ctx, fd2, "verif")
+	txt2, err = tool.PrintFile(ctx, fd2, "verif")
 	if err != nil {
 		fails = append(fails, rtFailure{Sig: "second PrintFile error: " + failureClass(err.Error()), Clause: "printing that result again", Got: err.Error()})
-		return txt1, fails
+		return txt1, fd2, "", fails
 	}
 	if txt2 != txt1 {
 		l1, l2 := strings.Split(txt1, "\n"), strings.Split(txt2, "\n")
@@ -361,7 +376,7 @@ func roundTrip(ctx context.Context, fd protoreflect.FileDescriptor, siblings map
 		}
 		fails = append(fails, rtFailure{Sig: "printing the reparsed descriptor does not reproduce the text (" + class + ")", Clause: "printing that result again reproduces the same text", Got: fmt.Sprintf("line %d: %q vs %q", at+1, g1, g2)})
 	}
-	return txt1, fails
+	return txt1, fd2, txt2, fails
 }
 
 // ---------------------------------------------------------------- repository protos
@@ -420,6 +435,40 @@ func runC05(cfg *vh.Config) error {
 			}
 		}
 	}
+	// file layer: descriptor + real tokens of its printed text, for model/ProtoPrintFileCorr.v
+	type fileCaseRec struct {
+		term, where string
+		toks        int
+	}
+	var fileCases []fileCaseRec
+	fileSeen := vh.Distinct{}
+	fileToks := map[string]int{}
+	maxFileToks := map[string]int{"repo-proto": cfg.Scale(16000, 400000), "compiled": cfg.Scale(18000, 600000)}
+	addFile := func(stream string, fd protoreflect.FileDescriptor, out rtOut, where string, input any) {
+		if out.Fd2 == nil || out.Txt1 == "" {
+			return
+		}
+		if _, dup := fileSeen[out.Txt1]; dup {
+			return
+		}
+		fileSeen.Add(out.Txt1)
+		if fileToks[stream] >= maxFileToks[stream] {
+			res.Count("file-layer:over the token budget of this tier")
+			return
+		}
+		term, n, skip, err := fileCase(fd, out.Txt1, out.Fd2, out.Txt2)
+		switch {
+		case err != nil:
+			res.Count("file-layer:lexer error")
+			res.Fail(vh.Failure{Case: 0, Stream: stream, Sig: "C05 printed text is not tokenised by the protocompile lexer / comment position not found", Clause: "parsing the printed text", Input: input, Got: err.Error()})
+		case skip != "":
+			res.Count("file-layer:outside the model (" + failureClass(skip) + ")")
+		default:
+			fileToks[stream] += n
+			fileCases = append(fileCases, fileCaseRec{term: term, where: where, toks: n})
+			res.Count("file-layer:" + stream)
+		}
+	}
 	caseNo := 0
 	repo := os.Getenv("VERIF_REPO")
 	if repo == "" {
@@ -464,7 +513,8 @@ func runC05(cfg *vh.Config) error {
 				continue
 			}
 			addOpts(fd, "repo-proto", input)
-			_, fails := roundTrip(ctx, fd, root.Files, false)
+			rt, fails := roundTripOut(ctx, fd, root.Files)
+			addFile("repo-proto", fd, rt, root.Dir+"/"+name, input)
 			if len(fails) == 0 {
 				res.Count("repo-proto:round trip ok")
 			} else {
@@ -513,7 +563,8 @@ func runC05(cfg *vh.Config) error {
 		for _, f := range files {
 			res.Count("compiled-file")
 			addOpts(f, "compiled", map[string]any{"package": p.Pkg, "file": f.Path(), "j5s": src})
-			_, fails := roundTrip(ctx, f, siblings, true)
+			rt, fails := roundTripOut(ctx, f, siblings)
+			addFile("compiled", f, rt, p.Pkg+" "+f.Path(), map[string]any{"package": p.Pkg, "file": f.Path(), "j5s": src})
 			if len(fails) > 0 {
 				ok = false
 				in2 := map[string]any{"package": p.Pkg, "file": f.Path(), "j5s": src}
@@ -652,9 +703,28 @@ func runC05(cfg *vh.Config) error {
 	if err != nil {
 		return err
 	}
+	// file layer: a third family of shards (few, large cases)
+	ff := &vh.CasesFile{
+		Header: "From Coq Require Import String List NArith ZArith.\nFrom J5V.model Require Import ProtoPrintLit ProtoPrint ProtoPrintCorr ProtoPrintFile ProtoParseFile ProtoPrintFileCorr.",
+		Type:   "c05file",
+		Check:  "c05_file_check",
+	}
+	const perFile = 8
+	for i, c := range fileCases {
+		caseNo++
+		res.Count("file")
+		distinct.Add("file:" + c.where + fmt.Sprint(c.toks, len(c.term)))
+		ff.Terms = append(ff.Terms, c.term)
+		res.Cases = append(res.Cases, vh.CaseRec{Case: caseNo, Stream: "file", Shard: fmt.Sprintf("files_%d", i/perFile), Pos: i % perFile, Input: c.where, Impl: fmt.Sprintf("%d tokens", c.toks)})
+		res.Sample(map[string]any{"stream": "file", "file": c.where, "tokens": c.toks}, 18)
+	}
+	fshards, err := ff.WriteShards(cfg.Out, "files", perFile)
+	if err != nil {
+		return err
+	}
 	res.Evaluations = caseNo
 	res.Distinct = len(distinct)
-	res.Shards = append(shards, oshards...)
+	res.Shards = append(append(shards, oshards...), fshards...)
 	return res.Write(cfg.Out)
 }
 
